@@ -3,6 +3,7 @@ from __future__ import annotations
 
 import ast
 import random
+import re
 
 from .. import base, corpus, gen_py, gen_xonsh
 from ..acc import Acc
@@ -92,12 +93,18 @@ def check_case(acc, src, mode, origin):
             else:
                 if o.accepted:
                     acc.violation("py_version-turns-rejection-into-acceptance", {**case, **cfg}, {"default": d.brief()[:120]})
-                elif v >= (3, 12) and s != dsig:
-                    acc.violation("rejection-differs-at-current-version", {**case, **cfg}, {"default": _short(dsig), "got": _short(s)})
+                elif s != dsig:
+                    # a program that is rejected anyway: lowering the version may not change anything ("only ever turns acceptance ... into")
+                    if v < (3, 12) and o.kind == "syntax" and "only supported in Python" in str(o.exc.msg) and _GATED_TEXT.search(src):
+                        acc.finding("F15a", src[:80])
+                    else:
+                        acc.violation("rejection-differs-under-py_version", {**case, **cfg}, {"default": _short(dsig), "got": _short(s)})
     _nv.clear()
 
 
 _nv = {}
+# input side of finding F15a: the rejected text contains version-gated syntax, so a speculative parse can reach a version check
+_GATED_TEXT = re.compile(r"except\s*\*|(?m:^\s*type\s+\w)|\b(?:def|class)\s+\w+\s*\[")
 
 
 def _short(s):
